@@ -93,6 +93,7 @@ type Engine struct {
 	preWrites int
 	preWriteLog []string
 	preWriteIDs []int
+	globalWrites int
 	curInstr  ssa.Instruction
 	depth     int
 	steps     int
